@@ -35,10 +35,16 @@ func drawC10(t *rapid.T) *C10Case {
 			p := c.Line[len(c.Line)-2]
 			cur = P{X: clampR(2*cur.X-p.X, 2*scale), Y: clampR(2*cur.Y-p.Y, 2*scale)}
 			c.Line = append(c.Line, cur)
+		case k == 2 && len(c.Line) >= 2: // back to an earlier vertex (an explicitly closed loop when it is the first)
+			cur = c.Line[rapid.IntRange(0, len(c.Line)-2).Draw(t, "backTo")]
+			c.Line = append(c.Line, cur)
 		default:
 			cur = P{X: rapid.Int64Range(-scale, scale).Draw(t, "x"), Y: rapid.Int64Range(-scale, scale).Draw(t, "y")}
 			c.Line = append(c.Line, cur)
 		}
+	}
+	if len(c.Line) >= 3 && rapid.IntRange(0, 5).Draw(t, "closeLoop") == 0 {
+		c.Line = append(c.Line, c.Line[0])
 	}
 	// companions: 0-2 short polylines of 1-3 points far to the right of the line; their strokes
 	// cannot interact with the line's, but per-group state of the offsetter can
